@@ -58,6 +58,11 @@ REGRESSION = [      # inputs of test/test_crashes.py (issues 22, numpy poly1d, P
     b"(c__builtin__\nexec\nS'print(1)'\no0N.", b"(I1\n(I2\n0I3\nt.", b"\x80\x02(K\x010K\x02.",
     # in-band bytearrays of protocol 5 (BYTEARRAY8: refused as coded; if it is ever accepted the value is a bytearray)
     pickle.dumps(bytearray(b"ab"), 5), pickle.dumps([bytearray(b"x"), b"x"], 5), pickle.dumps({"k": bytearray()}, 5),
+    # FROZENSET after a global named `frozenset` of another module was imported (found by the thorough tier's mixed profile:
+    # the decompiler's own `frozenset({...})` then calls the imported global; recorded under the shadowed-name findings)
+    bytes.fromhex("6376657269665f73696e6b0a6f746865720a6376657269665f73696e6b0a6f746865720a5666726f7a656e7365740a4e876376657269665f73696e6b0a66726f7a656e7365740a8004872891512930852e"),
+    bytes.fromhex("4e636f730a6765747069640a6376657269665f73696e6b0a66726f7a656e7365740a32636f730a6765747069640a4e94282891951e0000000000000070350a70300a856976657269665f73696e6b0a66726f7a656e7365740a2e"),
+    b"cverif_sink\nfrozenset\n(K\x01\x91.", b"cverif_sink\nfrozenset\n(K\x01\x91\x85R.",
 ]
 SHADOWMODS = ["collections", "importlib", "gzip", "datetime", "functools", "string"]
 
